@@ -93,6 +93,13 @@ func (c *Ctx) MineShared() (run, owner bool, shard, nshards int) {
 	if c.only >= 0 {
 		return i == c.only, i == c.only, 0, 1
 	}
+	if !c.deadline.IsZero() && time.Now().After(c.deadline) {
+		// shared explorations are long: the soft deadline is looked at before each of them
+		c.stopped = true
+		c.res.Exhaustive = false
+		c.res.Caps = append(c.res.Caps, fmt.Sprintf("deadline reached at case index %d", i))
+		return false, false, 0, 1
+	}
 	if c.Stride > 1 && (i/int64(c.NShards))%c.Stride != 0 {
 		return false, false, 0, 1
 	}
